@@ -16,16 +16,30 @@
 #include "rkcommon/tasking/detail/enkiTS/TaskScheduler.cpp"
 #endif
 using namespace rkcommon::tasking;
-extern "C" unsigned vp_threads_created(void);
+extern "C" unsigned vp_threads_live(void);   // number of live threads besides the caller
 #ifdef VP_NATIVE_BUILD
 #include <unistd.h>
-extern "C" unsigned vp_threads_created(void) { return 0; }
-#define SYM(x)
+#include <dirent.h>
+static unsigned count_tasks() { unsigned n = 0; DIR *d = opendir("/proc/self/task"); if (!d) return 1; while (dirent *e = readdir(d)) if (e->d_name[0] != '.') n++; closedir(d); return n; }
+// native: threads of this process besides the caller, once the number has been stable for 100 ms (cancelled workers take a moment to go)
+extern "C" unsigned vp_threads_live(void) { unsigned last = count_tasks(), stable = 0; for (int i = 0; i < 200 && stable < 10; i++) { usleep(10000); unsigned c = count_tasks(); if (c == last) stable++; else { stable = 0; last = c; } } return last - 1; }
+#define SYM(x) x
+#include <thread>
+static std::thread::id g_main_id = std::this_thread::get_id();
+// native replay only: invocations that land on a thread other than the caller are slow, so a missing join shows
+#define SLOW_WORKER() do { if (std::this_thread::get_id() != g_main_id) usleep(3000); } while (0)
 #define NATIVE_DELAY() usleep(30000)
+#define SPIN_MAX 100000
+#include <cstdlib>
+static int native_reps() { const char *e = getenv("VP_REPS"); return e ? atoi(e) : 1; }   // set by the replay driver only
+#define NATIVE_REPS native_reps()
 #define WAIT_A_BIT() usleep(500)
 #else
 #define SYM(x) x
 #define NATIVE_DELAY() 0
+#define SPIN_MAX 60
+#define NATIVE_REPS 1
+#define SLOW_WORKER() do { } while (0)
 #define WAIT_A_BIT() sched_yield()
 #endif
 #ifndef THREADS
@@ -47,14 +61,13 @@ VP_ENTRY vp_main_init()
   int got = numTaskingThreads();
 #ifdef RKCOMMON_TASKING_INTERNAL
   if (n > 0) { vp_assert(got == n, "after initTaskingSystem(n), n > 0, numTaskingThreads() returns n");
-               SYM(vp_assert((int)vp_threads_created() == n - 1, "exactly n-1 worker threads are created (the caller is the n-th)");) }
-  else { vp_assert(got >= 1, "n <= 0 selects a positive hardware-derived default"); SYM(vp_assert((int)vp_threads_created() == got - 1, "default: hardware count minus the caller");) }
+               vp_assert((int)vp_threads_live() == n - 1, "exactly n-1 worker threads exist (the caller is the n-th)"); }
+  else { vp_assert(got >= 1, "n <= 0 selects a positive hardware-derived default"); vp_assert((int)vp_threads_live() == got - 1, "default: as many workers as the reported count minus the caller"); }
   // initialising again replaces the previous setting
   int m = (int)VPC(3) + 1;                 // 1..3
-  unsigned before = vp_threads_created();
   initTaskingSystem(m, false);
   vp_assert(numTaskingThreads() == m, "a second initialisation with m > 0 replaces the previous setting");
-  SYM(vp_assert((int)(vp_threads_created() - before) == m - 1, "the new scheduler creates m-1 workers");)
+  vp_assert((int)vp_threads_live() == m - 1, "after re-initialisation exactly m-1 workers exist (the previous scheduler's workers are gone)");
 #else
   vp_assert(got == 1, "serial debug back end: 1 (it has no threads)");
 #endif
@@ -68,8 +81,8 @@ VP_ENTRY vp_main_active()
   vp_nothrow(true);
   init_threads();
   g_active = 0; g_max = 0;
-  int n = (int)VPC(4);
-  parallel_for(n, [&](int) { int a = ++g_active; int m = g_max.load(); while (a > m && !g_max.compare_exchange_weak(m, a)) {} --g_active; });
+  int n = (int)VPC(5);
+  parallel_for(n, [&](int) { int a = ++g_active; int m = g_max.load(); while (a > m && !g_max.compare_exchange_weak(m, a)) {} WAIT_A_BIT(); WAIT_A_BIT(); --g_active; });
   vp_assert(g_max.load() <= (THREADS > 0 ? THREADS : 1), "no more bodies active at once than tasking threads configured");
   vp_assert(n == 0 || g_max.load() >= 1, "bodies ran");
   vp_reach("end");
@@ -77,6 +90,7 @@ VP_ENTRY vp_main_active()
 
 // ---------------------------------------------------------------- C01
 static int g_cnt[8];
+static std::atomic<int> g_calls;
 template <typename IDX> static void t_parallel_for()
 {
   vp_nothrow(true);
@@ -86,6 +100,7 @@ template <typename IDX> static void t_parallel_for()
   IDX n = (IDX)nn;
   if (!std::is_signed<IDX>::value) vp_assume(nn >= 0);
   parallel_for(n, [&](IDX i) {
+    g_calls++; SLOW_WORKER();
     bool inside = i >= 0 && (long long)i < (long long)nn && i < (IDX)8;
     vp_assert(inside, "the function is invoked for nothing outside [0,n) (a count <= 0 invokes nothing)");
     if (inside) g_cnt[(int)i]++; });
@@ -101,13 +116,27 @@ VP_ENTRY vp_main_pfor_uint() { t_parallel_for<unsigned>(); }
 VP_ENTRY vp_main_pfor_slong() { t_parallel_for<long>(); }
 VP_ENTRY vp_main_pfor_ull() { t_parallel_for<unsigned long long>(); }
 
+// the join: with two threads and every schedule of <= PREEMPT preemptions, all invocations have happened when the call returns
+VP_ENTRY vp_main_pfor_join()
+{
+  vp_nothrow(true);
+  init_threads();
+  int n = 2 + (int)VPC(2);
+  for (int rep = 0; rep < NATIVE_REPS; rep++) {        // native replay repeats the call: the schedule cannot be forced there
+    for (int i = 0; i < 8; i++) g_cnt[i] = 0;
+    parallel_for(n, [&](int i) { g_calls++; SLOW_WORKER(); g_cnt[i]++; });
+    for (int i = 0; i < 8; i++) vp_assert(g_cnt[i] == ((i < n) ? 1 : 0), "every index in [0,n) exactly once, visible when the call returns");
+  }
+  vp_reach("end");
+}
+
 VP_ENTRY vp_main_pfor_nested()
 {
   vp_nothrow(true);
   init_threads();
   static int cnt[3][3]; for (int i = 0; i < 3; i++) for (int j = 0; j < 3; j++) cnt[i][j] = 0;
   int n = (int)VPC(3), m = (int)VPC(3);
-  parallel_for(n, [&](int i) { parallel_for(m, [&](int j) { cnt[i][j]++; }); });
+  parallel_for(n, [&](int i) { parallel_for(m, [&](int j) { g_calls++; SLOW_WORKER(); cnt[i][j]++; }); });
   for (int i = 0; i < 3; i++) for (int j = 0; j < 3; j++) vp_assert(cnt[i][j] == ((i < n && j < m) ? 1 : 0), "nested parallel_for: every (i,j) exactly once, visible on return");
   vp_reach("end");
 }
@@ -120,7 +149,7 @@ template <int B> static void t_blocks()
   std::atomic<int> blocks{0};
   int n = (int)VPC(12) - 1;                // -1 .. 10
   parallel_in_blocks_of<B>(n, [&](int b, int e) {
-    blocks++;
+    blocks++; SLOW_WORKER();
     vp_assert(b >= 0 && b < e && e <= n && e - b <= B && b % B == 0, "blocks are non-empty, aligned, inside [0,n) and no larger than the block size");
     for (int i = b; i < e && i < 12; i++) if (i >= 0) cnt[i]++; });
   for (int i = 0; i < 12; i++) vp_assert(cnt[i] == ((i < n) ? 1 : 0), "the blocks partition [0,n) exactly");
@@ -137,7 +166,7 @@ VP_ENTRY vp_main_foreach()
   init_threads();
   std::vector<int> v; int n = (int)VPC(4);
   for (int i = 0; i < n; i++) v.push_back(0);
-  parallel_foreach(v, [&](int &x) { x++; });
+  parallel_foreach(v, [&](int &x) { g_calls++; SLOW_WORKER(); x++; });
   for (int i = 0; i < n; i++) vp_assert(v[i] == 1, "parallel_foreach visits every element exactly once");
   vp_reach("end");
 }
@@ -200,6 +229,25 @@ VP_ENTRY vp_main_asynctask()
   }
   vp_assert(Payload::assign_to_dead == 0, "the result is never assigned into a result slot that is not (yet) a constructed object");
   vp_assert(Payload::ctor == Payload::dtor, "every result object constructed is destroyed exactly once");
+  vp_reach("end");
+}
+
+// heap-allocated AsyncTask released as soon as it reports finished(): neither the task nor the scheduler may touch it afterwards
+VP_ENTRY vp_main_asynctask_heap()
+{
+  vp_nothrow(true);
+  initTaskingSystem(THREADS, false);
+  int x = vp_nondet_int();
+  for (int rep = 0, reps = NATIVE_REPS > 1 ? NATIVE_REPS * 50 : 1; rep < reps; rep++) {   // native replay repeats: the schedule cannot be forced there
+    if (THREADS > 1 && PREEMPT > 0) vp_sched(PREEMPT); // schedules are explored from the creation of the task ...
+    AsyncTask<int> *t = new AsyncTask<int>([=]() { return x; });
+    for (int spin = 0; spin < SPIN_MAX && !t->finished(); spin++) sched_yield();
+    int r = t->get();
+    vp_assert(r == x, "finished()==true implies get() returns the complete value");
+    delete t;                                           // the destructor must wait until the scheduler has let go of the task
+    for (int spin = 0; spin < 4; spin++) sched_yield(); // give a late scheduler access the chance to happen (it would hit freed memory)
+    if (THREADS > 1 && PREEMPT > 0) vp_sched(0);        // ... until the scheduler has had its chance to touch the released task
+  }
   vp_reach("end");
 }
 
